@@ -310,6 +310,11 @@ def jobs_for(ck):
                     continue    # generated C sources include headers by their mirror-layout path
                 jobs.append((idx, spec, pl, odd, args))
                 idx += 1
+    # a dependency listed after a partial view of itself
+    for pi_, spec in enumerate(pg.partialdep_specs()):
+        for pl in (('root', 'allsub') if ck.thorough else (('root', 'allsub')[(pi_ + ck.seed) % 2],)):
+            jobs.append((idx, spec, pl, False, ()))
+            idx += 1
     # generators that need a build-time product and process several inputs in one call
     for gi, spec in enumerate(pg.gendep_specs()):
         for pl in (('root', 'allsub') if ck.thorough else (('root', 'allsub')[(gi + ck.seed) % 2],)):
